@@ -274,7 +274,7 @@ public:
                               "stub: transport, ScriptedServer as an independent RFC 5802/2831/4616/XEP-0484 implementation on OpenSSL (honest or misbehaving message sequences), seeded nonces");
     }
 
-    static constexpr const char *kScramQuirks[] = { "nonce_mismatch", "nonce_truncated", "iter0", "iter_neg", "iter_nan", "no_r", "no_s", "no_i", "empty_salt", "wrong_v", "wrong_v_prefix_ok", "error_e", "success_no_v", "extra_challenge" };
+    static constexpr const char *kScramQuirks[] = { "nonce_mismatch", "nonce_truncated", "iter0", "iter_neg", "iter_nan", "no_r", "no_s", "no_i", "empty_salt", "wrong_v", "wrong_v_prefix_ok", "error_e", "success_no_v", "success_server_first_again", "extra_challenge" };
     static constexpr const char *kDigestQuirks[] = { "rspauth_wrong", "rspauth_missing", "no_nonce", "qop_noauth" };
 
     Plan generate(quint64 seed, const QString &) override
@@ -317,8 +317,9 @@ public:
         const int hist = r.weighted({ 45, 40, 15 });   // honest, misbehaving, holds another secret
         if (hist == 1) {
             if (mech.startsWith(QLatin1String("SCRAM"))) {
-                if (r.chance(0.12)) {
-                    s[QStringLiteral("q.sasl")] = QStringLiteral("early_success");
+                if (r.chance(0.2)) {
+                    static const char *early[] = { "early_success", "early_success_server_first", "early_success_garbage" };
+                    s[QStringLiteral("q.sasl")] = QString::fromLatin1(early[r.uniform(3)]);
                 } else {
                     s[QStringLiteral("q.scram")] = QString::fromLatin1(kScramQuirks[r.uniform(sizeof(kScramQuirks) / sizeof(*kScramQuirks))]);
                 }
